@@ -8,8 +8,8 @@ import (
 
 // C02Monitor: handover only moves objects forward between revisions.
 type C02Monitor struct {
-	revisions map[string]int64 // ObjectSet uid -> first non-zero status.revision seen
-	Adoptions int
+	revisions     map[string]int64 // ObjectSet uid -> first non-zero status.revision seen
+	Adoptions     int
 	maxAdopterRev int64
 }
 
